@@ -178,6 +178,19 @@ def judge_rest(ctx, run, meta):
             ctx.violation("GetExecutionHistory-differs-from-store", S.witness_of(run, dict(arn=arn)), None)
         if rev["events"] != list(reversed(fwd["events"])):
             ctx.violation("reverseOrder-is-not-the-reverse", S.witness_of(run, dict(arn=arn, forward=[e["id"] for e in fwd["events"]], reverse=[e["id"] for e in rev["events"]])), None)
+        # reading is reading: after a reverse read the log is what it was, for the next reader and in the store
+        code3, again = w.api("GetExecutionHistory", {"executionArn": arn})
+        code4, again_blocking = w.api("GetExecutionHistory", {"executionArn": arn}, flavour="blocking")
+        code5, rev_blocking = w.api("GetExecutionHistory", {"executionArn": arn, "reverseOrder": True}, flavour="blocking")
+        code6, last = w.api("GetExecutionHistory", {"executionArn": arn})
+        ctx.count("rest_history_calls", 4)
+        for label, c, got in (("forward after reverse", code3, again), ("forward through the other front end", code4, again_blocking), ("forward after the other front end's reverse", code6, last)):
+            if c != 200 or got.get("events") != fwd["events"]:
+                ctx.violation("history-read-changed-by-an-earlier-read", S.witness_of(run, dict(arn=arn, which=label, first=[e["id"] for e in fwd["events"]],
+                                                                                               now=[e["id"] for e in (got.get("events") or [])] if c == 200 else c)), None)
+                break
+        if code5 == 200 and rev_blocking["events"] != list(reversed(fwd["events"])):
+            ctx.violation("reverseOrder-is-not-the-reverse", S.witness_of(run, dict(arn=arn, front_end="blocking")), None)
 
 
 def judge_trace(ctx, case, outs, run, sched):
